@@ -73,12 +73,24 @@ fn main() {
             if args.get(3).map(|s| s.is_empty()).unwrap_or(true) { vec![] } else { args[3].split(';').map(parse_alpha).collect() };
          let n = alphas.len();
          let f = reg.iter().find(|(n, _, _)| n == name).expect("unknown harness").1;
+         // crash localisation: with RUNNER_LAST_INPUT_FILE set, the input about to be evaluated is written (fixed width, offset 0)
+         // to that file, so that after a crash of the code under test (stack overflow, abort) the driver can read the culprit
+         let mut trace = std::env::var("RUNNER_LAST_INPUT_FILE").ok().and_then(|p| std::fs::File::create(p).ok());
          let mut idx = vec![0usize; n];
          let mut evals: u64 = 0;
          let mut rejected: u64 = 0;
          let mut failures: Vec<(String, Vec<u8>)> = vec![];
          loop {
             let bytes: Vec<u8> = idx.iter().enumerate().map(|(p, &i)| alphas[p][i]).collect();
+            if let Some(tf) = trace.as_mut() {
+               use std::io::{Seek, SeekFrom, Write};
+               let mut line = bytes.iter().map(|x| x.to_string()).collect::<Vec<_>>().join(",");
+               while line.len() < 96 {
+                  line.push(' ');
+               }
+               let _ = tf.seek(SeekFrom::Start(0));
+               let _ = tf.write_all(line.as_bytes());
+            }
             let (rej, consumed, failed, _notes) = run_one(f, &bytes);
             if rej {
                rejected += 1;
